@@ -14359,3 +14359,575 @@ func E11JoinCoincidence(c *core.Ctx, r *core.Report) {
 		r.Fail("E11.join-coincidence", key, c.Pos(target.Pos()), bad)
 	}
 }
+
+// E11AccumulatorRestart: a hull accumulated over nested loops is started once.
+func E11AccumulatorRestart(c *core.Ctx, r *core.Report) {
+	r.Rule("E11.accumulator-restart", "canvas.go: a variable declared in front of a loop nest that is both extended inside it (`acc = acc.Add(x)`: the right-hand side reads acc) and overwritten inside it (`acc = x`) is an accumulator with a first-element case. Every overwrite is guarded by a test of the accumulator itself (`acc.Empty()`) or by a flag that is declared outside every loop of the nest — a flag (re)initialised inside the outer loop restarts the accumulation with each of its iterations, and Canvas.Fit then fits the canvas to the layers of whichever z-index the map yields last")
+	p := c.MustPkg("")
+	info := p.TypesInfo
+	n := 0
+	for _, fd := range core.AllFuncDecls(p) {
+		if fd.Body == nil || filepath.Base(c.Fset.Position(fd.Pos()).Filename) != "canvas.go" {
+			continue
+		}
+		// loops with their extents
+		type span struct{ pos, end token.Pos }
+		var loops []span
+		ast.Inspect(fd.Body, func(m ast.Node) bool {
+			switch x := m.(type) {
+			case *ast.ForStmt:
+				loops = append(loops, span{x.Pos(), x.End()})
+			case *ast.RangeStmt:
+				loops = append(loops, span{x.Pos(), x.End()})
+			}
+			return true
+		})
+		if len(loops) == 0 {
+			continue
+		}
+		enclosing := func(pos token.Pos) []span {
+			var out []span
+			for _, l := range loops {
+				if l.pos <= pos && pos < l.end {
+					out = append(out, l)
+				}
+			}
+			return out
+		}
+		mentions := func(nd ast.Node, o types.Object) bool {
+			hit := false
+			ast.Inspect(nd, func(k ast.Node) bool {
+				if id, ok := k.(*ast.Ident); ok && core.ObjOf(info, id) == o {
+					hit = true
+				}
+				return true
+			})
+			return hit
+		}
+		// candidate accumulators
+		type asg struct {
+			as    *ast.AssignStmt
+			self  bool
+			stack []ast.Node
+		}
+		byVar := map[types.Object][]asg{}
+		var stack []ast.Node
+		ast.Inspect(fd.Body, func(m ast.Node) bool {
+			if m == nil {
+				stack = stack[:len(stack)-1]
+				return true
+			}
+			stack = append(stack, m)
+			as, ok := m.(*ast.AssignStmt)
+			if !ok || as.Tok != token.ASSIGN || len(as.Lhs) != 1 || len(as.Rhs) != 1 {
+				return true
+			}
+			id, ok := as.Lhs[0].(*ast.Ident)
+			if !ok {
+				return true
+			}
+			o := core.ObjOf(info, id)
+			if o == nil || len(enclosing(as.Pos())) == 0 {
+				return true
+			}
+			// declared in front of the loops that enclose the assignment
+			outside := true
+			for _, l := range enclosing(as.Pos()) {
+				if o.Pos() >= l.pos {
+					outside = false
+				}
+			}
+			if !outside {
+				return true
+			}
+			byVar[o] = append(byVar[o], asg{as, mentions(as.Rhs[0], o), append([]ast.Node{}, stack...)})
+			return true
+		})
+		for o, list := range byVar {
+			hasSelf, hasOver := false, false
+			for _, a := range list {
+				if a.self {
+					hasSelf = true
+				} else {
+					hasOver = true
+				}
+			}
+			if !hasSelf || !hasOver {
+				continue
+			}
+			k := 0
+			for _, a := range list {
+				if a.self {
+					continue
+				}
+				n++
+				k++
+				key := fmt.Sprintf("canvas.%s|%s started #%d", core.FuncName(fd), o.Name(), k)
+				outer := enclosing(a.as.Pos())
+				good, why := false, ""
+				for i := len(a.stack) - 2; i >= 0; i-- {
+					is, ok := a.stack[i].(*ast.IfStmt)
+					if !ok || is.Pos() < outer[0].pos {
+						continue
+					}
+					if mentions(is.Cond, o) {
+						good = true
+						break
+					}
+					ast.Inspect(is.Cond, func(q ast.Node) bool {
+						id, ok := q.(*ast.Ident)
+						if !ok {
+							return true
+						}
+						fo := core.ObjOf(info, id)
+						if v, ok := fo.(*types.Var); ok && !v.IsField() {
+							if bt, ok := v.Type().Underlying().(*types.Basic); ok && bt.Info()&types.IsBoolean != 0 {
+								if fo.Pos() < outer[0].pos {
+									good = true
+								} else {
+									why = fmt.Sprintf("the flag `%s` is declared inside the loop nest (%s), so `%s` is started anew with every iteration of the loop around it", fo.Name(), c.Pos(fo.Pos()), o.Name())
+								}
+							}
+						}
+						return true
+					})
+				}
+				switch {
+				case good:
+					r.OK("E11.accumulator-restart", key, c.Pos(a.as.Pos()), "")
+				case why != "":
+					r.Fail("E11.accumulator-restart", key, c.Pos(a.as.Pos()), why+": what was accumulated before is overwritten")
+				default:
+					r.Fail("E11.accumulator-restart", key, c.Pos(a.as.Pos()), fmt.Sprintf("`%s` overwrites the accumulator inside the loops without a test of the accumulator or of a flag declared in front of them", c.Src(a.as)))
+				}
+			}
+		}
+	}
+	r.Count("E11.accumulator-starts", n)
+	r.Floor("E11.accumulator-starts", 1)
+}
+
+// E11ImageReplacedExtent: the origin of a drawn image is computed from the height of the image that is drawn.
+func E11ImageReplacedExtent(c *core.Ctx, r *core.Report) {
+	r.Rule("E11.image-replaced-extent", "Rasterizer.RenderImage may replace its image by a copy with a transparent margin of m pixels on every side and then places that copy: the point handed to m.Dot for the origin has y = H + m, with H the height of the caller's image (the copy is H + 2m high and its lower margin lies below the image). Heights are followed as polynomials in H and m: of the parameter, of a local measured on it (`size := img.Bounds().Size()`), of the copy (`image.NewRGBA(image.Rect(0, 0, w, h))` has height h) and of the parameter after `img = img2`; the origin's y is evaluated on the path that makes the copy and on the path that does not (there m = 0) and must be H + m on both. `size.Y - margin` with the size measured on the original is H − m: rotated and sheared images land 2m source pixels from their place")
+	p := c.MustPkg("renderers/rasterizer")
+	info := p.TypesInfo
+	fd := core.MustFuncDecl(p, "Rasterizer.RenderImage")
+	img := paramObj(info, fd, 0)
+	if img == nil {
+		panic(core.Infra("RenderImage: image parameter not found"))
+	}
+	key := "renderers/rasterizer.Rasterizer.RenderImage|origin from the height of the image that is drawn"
+	r.Count("E11.image-replaced-extent", 1)
+	type env struct {
+		height map[types.Object]poly // height of an image-typed variable
+		sizeY  map[types.Object]poly // Y of a local holding a Size()
+	}
+	var marginObj types.Object
+	// the margin: the int local added twice to the copy's size; found as the local named in `…+margin*2`
+	ast.Inspect(fd.Body, func(m ast.Node) bool {
+		be, ok := m.(*ast.BinaryExpr)
+		if !ok || be.Op != token.MUL {
+			return true
+		}
+		for _, pr := range [][2]ast.Expr{{be.X, be.Y}, {be.Y, be.X}} {
+			if v, ok := core.ConstInt(info, pr[1]); ok && v == 2 {
+				if id, ok := core.Unparen(pr[0]).(*ast.Ident); ok && marginObj == nil {
+					marginObj = core.ObjOf(info, id)
+				}
+			}
+		}
+		return true
+	})
+	if marginObj == nil {
+		r.Fail("E11.image-replaced-extent", key, c.Pos(fd.Pos()), "the margin (the local doubled in the size of the copy) was not found")
+		return
+	}
+	var evalE func(e ast.Expr, en *env) (poly, bool)
+	evalE = func(e ast.Expr, en *env) (poly, bool) {
+		e = core.Unparen(e)
+		// conversions
+		if call, ok := e.(*ast.CallExpr); ok && len(call.Args) == 1 {
+			if tv, ok := info.Types[call.Fun]; ok && tv.IsType() {
+				return evalE(call.Args[0], en)
+			}
+		}
+		if tv, ok := info.Types[e]; ok && tv.Value != nil {
+			if v, exact := constant.Int64Val(constant.ToInt(tv.Value)); exact {
+				return polyTrim(poly{"": int(v)}), true
+			}
+		}
+		switch x := e.(type) {
+		case *ast.Ident:
+			if core.ObjOf(info, x) == marginObj {
+				return poly{"m": 1}, true
+			}
+		case *ast.UnaryExpr:
+			if x.Op == token.SUB {
+				if a, ok := evalE(x.X, en); ok {
+					return polyAdd(poly{}, a, -1), true
+				}
+			}
+		case *ast.BinaryExpr:
+			a, ok1 := evalE(x.X, en)
+			b, ok2 := evalE(x.Y, en)
+			if ok1 && ok2 {
+				switch x.Op {
+				case token.ADD:
+					return polyAdd(a, b, 1), true
+				case token.SUB:
+					return polyAdd(a, b, -1), true
+				case token.MUL:
+					return polyMul(a, b), true
+				}
+			}
+		case *ast.SelectorExpr:
+			if x.Sel.Name != "Y" {
+				return nil, false
+			}
+			// size.Y
+			if id, ok := core.Unparen(x.X).(*ast.Ident); ok {
+				if pl, ok := en.sizeY[core.ObjOf(info, id)]; ok {
+					return pl, true
+				}
+			}
+			// V.Bounds().Size().Y
+			if call, ok := core.Unparen(x.X).(*ast.CallExpr); ok {
+				if se, ok := call.Fun.(*ast.SelectorExpr); ok && se.Sel.Name == "Size" {
+					if bc, ok := core.Unparen(se.X).(*ast.CallExpr); ok {
+						if bs, ok := bc.Fun.(*ast.SelectorExpr); ok && bs.Sel.Name == "Bounds" {
+							if id, ok := core.Unparen(bs.X).(*ast.Ident); ok {
+								if pl, ok := en.height[core.ObjOf(info, id)]; ok {
+									return pl, true
+								}
+							}
+						}
+					}
+				}
+			}
+		}
+		return nil, false
+	}
+	var originY []struct {
+		pl   poly
+		ok   bool
+		copy bool
+		pos  token.Pos
+	}
+	var run func(list []ast.Stmt, en *env, copied bool)
+	run = func(list []ast.Stmt, en *env, copied bool) {
+		for idx, st := range list {
+			switch x := st.(type) {
+			case *ast.AssignStmt:
+				if len(x.Lhs) == 1 && len(x.Rhs) == 1 {
+					lid, _ := x.Lhs[0].(*ast.Ident)
+					rhs := core.Unparen(x.Rhs[0])
+					if lid != nil {
+						lo := core.ObjOf(info, lid)
+						// size := V.Bounds().Size()
+						if call, ok := rhs.(*ast.CallExpr); ok {
+							if se, ok := call.Fun.(*ast.SelectorExpr); ok && se.Sel.Name == "Size" {
+								if pl, ok := evalE(&ast.SelectorExpr{X: rhs, Sel: ast.NewIdent("Y")}, en); ok {
+									en.sizeY[lo] = pl
+								}
+							}
+							// img2 := image.NewRGBA(image.Rect(x0, y0, x1, y1))
+							if f := core.CalleeOf(info, call); f != nil && strings.HasPrefix(f.Name(), "New") && len(call.Args) == 1 {
+								if rc, ok := core.Unparen(call.Args[0]).(*ast.CallExpr); ok && len(rc.Args) == 4 {
+									y0, ok1 := evalE(rc.Args[1], en)
+									y1, ok2 := evalE(rc.Args[3], en)
+									if ok1 && ok2 {
+										en.height[lo] = polyAdd(y1, y0, -1)
+									}
+								}
+							}
+						}
+						// img = img2
+						if rid, ok := rhs.(*ast.Ident); ok {
+							if pl, ok := en.height[core.ObjOf(info, rid)]; ok {
+								en.height[lo] = pl
+								if lo == img {
+									copied = true
+								}
+							}
+						}
+					}
+				}
+				// origin := m.Dot(canvas.Point{X, Y})…
+				ast.Inspect(x, func(k ast.Node) bool {
+					call, ok := k.(*ast.CallExpr)
+					if !ok || len(call.Args) != 1 {
+						return true
+					}
+					if f := core.CalleeOf(info, call); f == nil || f.Name() != "Dot" {
+						return true
+					}
+					if cl, ok := core.Unparen(call.Args[0]).(*ast.CompositeLit); ok && len(cl.Elts) == 2 {
+						y := cl.Elts[1]
+						if kv, ok := y.(*ast.KeyValueExpr); ok {
+							y = kv.Value
+						}
+						pl, ok := evalE(y, en)
+						originY = append(originY, struct {
+							pl   poly
+							ok   bool
+							copy bool
+							pos  token.Pos
+						}{pl, ok, copied, call.Pos()})
+					}
+					return true
+				})
+			case *ast.IfStmt:
+				// both ways: the block that may replace the image, and the rest without it
+				cp := func() *env {
+					o := &env{map[types.Object]poly{}, map[types.Object]poly{}}
+					for k, v := range en.height {
+						o.height[k] = v
+					}
+					for k, v := range en.sizeY {
+						o.sizeY[k] = v
+					}
+					return o
+				}
+				replaces := false
+				ast.Inspect(x.Body, func(k ast.Node) bool {
+					if as, ok := k.(*ast.AssignStmt); ok {
+						for _, l := range as.Lhs {
+							if id, ok := l.(*ast.Ident); ok && core.ObjOf(info, id) == img {
+								replaces = true
+							}
+						}
+					}
+					return true
+				})
+				if replaces {
+					rest := list[idx+1:]
+					run(append(append([]ast.Stmt{}, x.Body.List...), rest...), cp(), copied)
+					run(rest, cp(), copied)
+					return
+				}
+			}
+		}
+	}
+	run(fd.Body.List, &env{map[types.Object]poly{img: {"H": 1}}, map[types.Object]poly{}}, false)
+	if len(originY) == 0 {
+		r.Fail("E11.image-replaced-extent", key, c.Pos(fd.Pos()), "the point handed to m.Dot for the origin was not found")
+		return
+	}
+	bad := ""
+	for _, o := range originY {
+		if !o.ok {
+			bad = "the y of the origin is not a polynomial in the image height and the margin"
+			continue
+		}
+		got := o.pl
+		want := poly{"H": 1, "m": 1}
+		path := "the path that draws the copy with the margin"
+		if !o.copy {
+			// no copy: the margin is zero
+			g := poly{}
+			for k, v := range got {
+				if !strings.Contains(k, "m") {
+					g[k] = v
+				}
+			}
+			got, want, path = polyTrim(g), poly{"H": 1}, "the path that draws the caller's image (margin 0)"
+		}
+		if !polyEqual(got, want) && bad == "" {
+			bad = fmt.Sprintf("on %s the origin's y is %s, it has to be %s (the lower margin lies below the image): the image is placed %s source pixels off along its own vertical axis", path, got, want, polyAdd(want, got, -1))
+		}
+	}
+	if bad == "" {
+		r.OK("E11.image-replaced-extent", key, c.Pos(originY[0].pos), fmt.Sprintf("%d paths", len(originY)))
+	} else {
+		r.Fail("E11.image-replaced-extent", key, c.Pos(originY[0].pos), bad)
+	}
+}
+
+// E11SplitPartition: the pieces whose lengths cubicBezierLength adds up tile the curve.
+func E11SplitPartition(c *core.Ctx, r *core.Report) {
+	r.Rule("E11.split-partition", "cubicBezierLength splits a cubic at its inflection points and sums the lengths of the pieces it collected. The function is interpreted path by path over its if/else structure with every quadruple of Point variables standing for an interval of the original parameter: the four parameters are [0,1]; `cubicBezierSplit(a, b, c, d, t)` of an interval [s,e] yields [s,k] and [k,e] for a fresh cut k; tuple assignments carry intervals along. On every path the quadruples appended to the list of pieces tile [0,1]: each starts where the previous one ended, none is counted twice and none is missing. A remainder that is not advanced after the second split is appended together with the middle piece it still contains, and Length() exceeds the true length by the stretch between the inflection points")
+	p := c.MustPkg("")
+	info := p.TypesInfo
+	fd := core.MustFuncDecl(p, "cubicBezierLength")
+	type piece struct {
+		s, e string
+		idx  int
+	}
+	type state map[types.Object]piece
+	var params []types.Object
+	for _, f := range fd.Type.Params.List {
+		for _, nm := range f.Names {
+			if o := info.Defs[nm]; isNamed(o.Type(), "tdewolff/canvas", "Point") {
+				params = append(params, o)
+			}
+		}
+	}
+	if len(params) != 4 {
+		panic(core.Infra("cubicBezierLength: expected four Point parameters"))
+	}
+	cuts := 0
+	quad := func(es []ast.Expr, st state) (piece, bool) {
+		if len(es) != 4 {
+			return piece{}, false
+		}
+		var first piece
+		for i, e := range es {
+			id, ok := core.Unparen(e).(*ast.Ident)
+			if !ok {
+				return piece{}, false
+			}
+			pc, ok := st[core.ObjOf(info, id)]
+			if !ok || pc.idx != i {
+				return piece{}, false
+			}
+			if i == 0 {
+				first = pc
+			} else if pc.s != first.s || pc.e != first.e {
+				return piece{}, false
+			}
+		}
+		return first, true
+	}
+	type result struct {
+		pieces []piece
+		bad    string
+		conds  []string
+	}
+	var results []result
+	var run func(list []ast.Stmt, st state, acc []piece, conds []string, bad string)
+	cp := func(st state) state {
+		o := state{}
+		for k, v := range st {
+			o[k] = v
+		}
+		return o
+	}
+	run = func(list []ast.Stmt, st state, acc []piece, conds []string, bad string) {
+		for idx, s := range list {
+			switch x := s.(type) {
+			case *ast.AssignStmt:
+				// split
+				if len(x.Rhs) == 1 {
+					if call, ok := core.Unparen(x.Rhs[0]).(*ast.CallExpr); ok {
+						if f := core.CalleeOf(info, call); f != nil && f.Name() == "cubicBezierSplit" && len(call.Args) == 5 && len(x.Lhs) == 8 {
+							src, ok := quad(call.Args[:4], st)
+							if !ok {
+								bad = "`" + c.Src(call) + "` is not applied to the four control points of one piece"
+								continue
+							}
+							cuts++
+							k := fmt.Sprintf("k%d", cuts)
+							for i, l := range x.Lhs {
+								if id, ok := l.(*ast.Ident); ok && id.Name != "_" {
+									o := core.ObjOf(info, id)
+									if i < 4 {
+										st[o] = piece{src.s, k, i}
+									} else {
+										st[o] = piece{k, src.e, i - 4}
+									}
+								}
+							}
+							continue
+						}
+						// pieces = append(pieces, [4]Point{a, b, c, d})
+						if id, ok := call.Fun.(*ast.Ident); ok && id.Name == "append" && len(call.Args) == 2 {
+							if cl, ok := core.Unparen(call.Args[1]).(*ast.CompositeLit); ok {
+								pc, ok := quad(cl.Elts, st)
+								if !ok {
+									bad = "`" + c.Src(cl) + "` is not the four control points of one piece"
+								} else {
+									acc = append(append([]piece{}, acc...), pc)
+								}
+								continue
+							}
+						}
+					}
+				}
+				// tuple copy
+				if len(x.Lhs) == len(x.Rhs) {
+					vals := make([]*piece, len(x.Rhs))
+					for i, rhs := range x.Rhs {
+						if id, ok := core.Unparen(rhs).(*ast.Ident); ok {
+							if pc, ok := st[core.ObjOf(info, id)]; ok {
+								v := pc
+								vals[i] = &v
+							}
+						}
+					}
+					for i, l := range x.Lhs {
+						if id, ok := l.(*ast.Ident); ok && vals[i] != nil {
+							st[core.ObjOf(info, id)] = *vals[i]
+						}
+					}
+				}
+			case *ast.IfStmt:
+				rest := list[idx+1:]
+				run(append(append([]ast.Stmt{}, x.Body.List...), rest...), cp(st), acc, append(append([]string{}, conds...), c.Src(x.Cond)), bad)
+				switch e := x.Else.(type) {
+				case *ast.BlockStmt:
+					run(append(append([]ast.Stmt{}, e.List...), rest...), cp(st), acc, append(append([]string{}, conds...), "!("+c.Src(x.Cond)+")"), bad)
+				case *ast.IfStmt:
+					run(append([]ast.Stmt{e}, rest...), cp(st), acc, append(append([]string{}, conds...), "!("+c.Src(x.Cond)+")"), bad)
+				default:
+					run(rest, cp(st), acc, append(append([]string{}, conds...), "!("+c.Src(x.Cond)+")"), bad)
+				}
+				return
+			case *ast.RangeStmt, *ast.ForStmt, *ast.ReturnStmt:
+				// the collection phase is over
+				results = append(results, result{acc, bad, conds})
+				return
+			}
+		}
+		results = append(results, result{acc, bad, conds})
+	}
+	init := state{}
+	for i, o := range params {
+		init[o] = piece{"0", "1", i}
+	}
+	run(fd.Body.List, init, nil, nil, "")
+	n := 0
+	for _, res := range results {
+		n++
+		key := fmt.Sprintf("canvas.cubicBezierLength|path %d of %d", n, len(results))
+		bad := res.bad
+		if bad == "" {
+			// tile [0,1]
+			at := "0"
+			used := make([]bool, len(res.pieces))
+			for {
+				next := -1
+				for i, pc := range res.pieces {
+					if !used[i] && pc.s == at {
+						if next >= 0 {
+							bad = fmt.Sprintf("two collected pieces start at %s: the stretch from there is counted twice", at)
+						}
+						next = i
+					}
+				}
+				if next < 0 || bad != "" {
+					break
+				}
+				used[next] = true
+				at = res.pieces[next].e
+			}
+			if bad == "" {
+				if at != "1" {
+					bad = fmt.Sprintf("the collected pieces end at %s, not at the end of the curve", at)
+				}
+				for i, u := range used {
+					if !u && bad == "" {
+						bad = fmt.Sprintf("the piece [%s,%s] overlaps the others", res.pieces[i].s, res.pieces[i].e)
+					}
+				}
+			}
+		}
+		if bad == "" {
+			r.OK("E11.split-partition", key, c.Pos(fd.Pos()), strings.Join(res.conds, "; "))
+		} else {
+			r.Fail("E11.split-partition", key, c.Pos(fd.Pos()), fmt.Sprintf("on the path [%s] %s: Length() is not the sum over a partition of the curve", strings.Join(res.conds, "; "), bad))
+		}
+	}
+	r.Count("E11.split-partition-paths", n)
+	r.Floor("E11.split-partition-paths", 2)
+}
